@@ -49,6 +49,11 @@ def gen(rng, tier):
             for size in (limit // 2, limit - 80, limit + 1, limit + 200, 2 * limit):
                 n += 1
                 yield {"family": "h2_header_list", "kind": "h2_header_list", "limit": limit, "size": max(1, size), "tag": n, "seed": rng.randrange(1 << 30)}
+                if limit < 65536:
+                    # the same limit on a connection that started as an HTTP/1.1 "Upgrade: h2c"
+                    n += 1
+                    yield {"family": "h2_header_list.h2c", "kind": "h2_header_list", "limit": limit, "size": max(1, size), "tag": n,
+                           "seed": rng.randrange(1 << 30), "h2c": True}
         # ---- keep_alive_max_requests ----------------------------------------------------------
         for limit in (1, 2, 3, 5):
             for proto in ("h1", "h2", "h2c"):
@@ -161,12 +166,17 @@ def run_one(case, tally):
             tag = case["tag"]
             hd = [(b":method", b"GET"), (b":scheme", b"http"), (b":path", b"/t%d" % tag), (b":authority", b"h"), (b"x-big", b"v" * case["size"])]
             pre = client_preface(fb, {})
-            blob = fb.headers(1, hd, end_stream=True, cont_split=[16000] * (case["size"] // 16000 + 1))
-            sib = fb.headers(3, [(b":method", b"GET"), (b":scheme", b"http"), (b":path", b"/t%d" % (tag + 50000)), (b":authority", b"h")], end_stream=True)
+            first_sid = 3 if case.get("h2c") else 1
+            blob = fb.headers(first_sid, hd, end_stream=True, cont_split=[16000] * (case["size"] // 16000 + 1))
+            sib = fb.headers(first_sid + 2, [(b":method", b"GET"), (b":scheme", b"http"), (b":path", b"/t%d" % (tag + 50000)), (b":authority", b"h")], end_stream=True)
             c = {"config": {"h2_max_header_list_size": case["limit"], "keep_alive_timeout": 5000}, "conn": {},
                  # the limit binds a client once it has acknowledged the server's SETTINGS: preface first, settle (ACK), then the request
                  "apps": {"default": _tag_app(tag)}, "client": [["feed", pre], ["settle"], ["feed", blob], ["settle"], ["feed", sib], ["settle"]],
                  "reactor": {"kind": "h2", "credit": "auto"}, "sched": {"seed": case["seed"]}, "horizon": 20.0}
+            if case.get("h2c"):
+                up = b"GET /t%d HTTP/1.1\r\nHost: h\r\nConnection: Upgrade, HTTP2-Settings\r\nUpgrade: h2c\r\nHTTP2-Settings: \r\n\r\n" % (tag + 70000)
+                c["client"] = [["feed_nosettle", up], ["quiesce"]] + c["client"]
+                c["reactor"]["skip_h1_101"] = True
             ob = run_case(c, be)
             obs_all.append(ob)
             if ob.harness_error or ob.handler == "exception":
